@@ -362,6 +362,22 @@ fn c18_basis_premise() {{
         let back = crate::ntt::inv_ntt(&h);
         for n in 0..256usize {{ assert!(back[0].0[n] == if n == i {{ 1 }} else {{ 0 }}, "VERIF-PROPERTY-VIOLATED C18 basis: inv_ntt(ntt(X^{{}}))[{{}}]", i, n); }}
     }}
+    // the transforms act polynomial by polynomial: a vector with zero, repeated and distinct entries in every position gives, entry by entry,
+    // the transform of that entry alone (no state carried from one vector element to the next; NTT(0) = 0)
+    let mut a = R0; a.0[3] = 5; a.0[200] = -7;
+    let mut b = R0; b.0[0] = 1; b.0[255] = 8380416;
+    let vecs: [[R; 4]; 4] = [[a.clone(), R0, b.clone(), R0], [R0, a.clone(), a.clone(), b.clone()], [b.clone(), R0, R0, a.clone()], [R0, R0, b.clone(), R0]];
+    for v in vecs.iter() {{
+        let hv = crate::ntt::ntt(v);
+        for k in 0..4usize {{
+            let single = crate::ntt::ntt(&[v[k].clone()]);
+            for m in 0..256usize {{ assert!((hv[k].0[m] as i64 - single[0].0[m] as i64).rem_euclid(Q) == 0, "VERIF-PROPERTY-VIOLATED C18 vector: ntt of a vector differs from the transform of its entry {{}} at {{}}", k, m); }}
+            let all_zero = v[k].0.iter().all(|c| *c == 0);
+            if all_zero {{ for m in 0..256usize {{ assert!((hv[k].0[m] as i64).rem_euclid(Q) == 0, "VERIF-PROPERTY-VIOLATED C18 vector: NTT of the zero polynomial (entry {{}}) is not zero", k); }} }}
+        }}
+        let bv = crate::ntt::inv_ntt(&hv);
+        for k in 0..4usize {{ for n in 0..256usize {{ assert!((bv[k].0[n] as i64 - v[k].0[n] as i64).rem_euclid(Q) == 0, "VERIF-PROPERTY-VIOLATED C18 vector: inv_ntt(ntt(v))[{{}}][{{}}] != v", k, n); }} }}
+    }}
 }}
 '''
 
